@@ -5,6 +5,7 @@ per-case timeout and reported with the graph as replay."""
 import itertools
 
 import lib
+import sx
 import gen
 from gen import S, lit, case
 
@@ -34,6 +35,9 @@ def reach(n, parents, present, a):
                     seen.add(y)
                     todo.append(y)
     return seen
+
+
+BATCH = None
 
 
 def cases_for_graph(cid, n, parents, present, cases, expect, pairs=None, sets=True, scopes=True):
@@ -85,6 +89,17 @@ def cases_for_graph(cid, n, parents, present, cases, expect, pairs=None, sets=Tr
                 rs += [S('rin')]
             rs.sort()
             expect[lib.case_id(c)] = '((dec %s) (reasons (%s)) (errors ()))' % ('allow' if rs else 'deny', ' '.join(rs))
+            # the same scope forms decided by the batch authorizer (partial evaluation resolves the scope once the variable is bound): principal
+            # ranges over every node (and the entity outside the store), resource over two nodes
+            if BATCH is not None:
+                import props.c06 as c06
+                bp = [['policy', S('pin'), 'permit', ['in', node(b)], ['all'], ['all'], ['conds']],
+                      ['policy', S('pisin'), 'permit', ['isin', S('N0'), node(b)], ['all'], ['all'], ['conds']],
+                      ['policy', S('pisin1'), 'permit', ['isin', S('N1'), node(b)], ['all'], ['all'], ['conds']],
+                      ['policy', S('rin'), 'permit', ['all'], ['all'], ['in', node(b)], ['conds']],
+                      ['policy', S('risin'), 'permit', ['all'], ['all'], ['isin', S('N1'), node(b)], ['conds']]]
+                BATCH.append(case('%s_b%d' % (cid, k), 'batch', st, ['req', c06.var('p'), gen.vent('Action', 'view'), c06.var('r'), ['rec']],
+                                  ['vars', [S('p')] + [node(x) for x in range(n + 1)], [S('r'), node(0), node(1)]], ['policies'] + bp, ['mode', 'none']))
 
 
 def run(ctx):
@@ -94,6 +109,8 @@ def run(ctx):
     r = ctx.rng
     cases = []
     expect = {}
+    global BATCH
+    BATCH = []
     n = 3
     subsets = [list(s) for k in range(n + 1) for s in itertools.combinations(range(n), k)]
     gid = 0
@@ -155,4 +172,20 @@ def run(ctx):
     for c in cases[100:102] + cases[-2:]:
         ctx.sample(dict(case=c[:400], go=go.get(lib.case_id(c))))
     ctx.oblige('correspondence: Go `in` / scopes = model on %d cases' % len(cases), 'correspondence', not mism)
+    # scope forms through the batch authorizer: Go batch = brute force with the ordinary authorizer (inside the harness) = the model of doBatch
+    import props.c05 as c05
+    bgo = lib.run_go(BATCH, 'inbatch', ctx.workdir)
+    bmo = lib.run_model(BATCH, 'inbatch', ctx.workdir)
+    bbad = 0
+    for c in BATCH:
+        cid = lib.case_id(c)
+        g, m = c05.project_common(bgo.get(cid, '(missing)')), c05.project_common(bmo.get(cid, '(missing)'))
+        ok = isinstance(g, dict) and isinstance(m, dict) and sx.dump(g['results'][1:]) == sx.dump(g['brute'][1:]) and sx.dump(g['results']) == sx.dump(m['results']) \
+            and g['status'][1] == 'ok'
+        if not ok:
+            bbad += 1
+            if bbad <= 3:
+                ctx.violation('scope forms `in` / `is..in` decided by the batch authorizer disagree with the ordinary authorizer / the model: %s' % str(bgo.get(cid))[:600],
+                              dict(kind='case', case=c, go=bgo.get(cid), model=bmo.get(cid)))
+    ctx.oblige('direct oracle + correspondence: scope forms through batch.Authorize = brute force = model (%d graphs x targets, principal over every node)' % len(BATCH), 'oracle', bbad == 0)
     lib.epilogue(ctx)
